@@ -23,6 +23,34 @@ def gc_history(live_at=()):
                    ("adv",), ("notify_all",)]
 
 
+def run_reuse_across_loops(kind):
+    """One module-level Condition / Event used under two successive event loops (asyncio.run twice): a timed wait under
+    the second loop expires on the second loop's clock."""
+    import datetime
+    from tornado import locks
+    from mc.vloop import World
+    obj = locks.Condition() if kind == "cond" else locks.Event()
+    out = []
+    for session in (0, 1):
+        with World() as w:
+            try:
+                f = obj.wait(timeout=datetime.timedelta(seconds=1))
+            except Exception as e:
+                out.append("raised:" + type(e).__name__)
+                continue
+            w.pump()
+            w.advance(1.5)
+            w.pump()
+            if not f.done():
+                out.append("pending")
+                f.cancel()
+            elif f.exception() is not None:
+                out.append(type(f.exception()).__name__)
+            else:
+                out.append(f.result())
+    return out
+
+
 class C34(Check):
     id = "C34"
     level = "model_checking"
@@ -48,10 +76,20 @@ class C34(Check):
         parts += [(("event",), i) for i in range(len(EVENT_OPS))]
         parts.append(("gc", 0))
         parts += [(("cond",), "burst"), (("event",), "burst")]      # several operations within one loop iteration
+        parts.append(("reuse", 0))
         return parts
 
     def run_partition(self, part, tier, st):
         spec, i = part
+        if spec == "reuse":
+            for kind, want in (("cond", [False, False]), ("event", ["TimeoutError", "TimeoutError"])):
+                got = run_reuse_across_loops(kind)
+                st.ev()
+                st.state(("reuse", kind, tuple(map(str, got))))
+                if got != want:
+                    st.violation("reuse-across-loops:%s" % kind, "%s used under two successive loops: timed waits gave %r, "
+                                 "expected %r" % (kind, got, want), {"spec": ("reuse", kind), "hist": []})
+            return
         if spec == "gc":
             for live_at in ((), (40, 100), (1, 99, 100), (50, 101)):
                 hist = gc_history(live_at) + [("notify", 1), ("notify", 1), ("notify", 2)]
@@ -76,6 +114,8 @@ class C34(Check):
 
     def replay(self, case):
         spec = tuple(case["spec"])
+        if spec[0] == "reuse":
+            return repr(run_reuse_across_loops(spec[1]))
         hist = tuple(tuple(o) if o[0] != "burst" else ("burst", tuple(tuple(x) for x in o[1])) for o in case["hist"])
         try:
             canon, nf = syncmodel.run_history(spec, hist)
